@@ -28,6 +28,7 @@ type GenCfg struct {
 	PTestSat           float64 // per test: parameter chosen so that the witness satisfies it
 	POpts              float64 // per test: IssueCode / IssuePath / Message options
 	PEmbed             float64 // per nested struct field: the destination embeds it (anonymous field)
+	PPtrInput          float64 // per pointer-to-number/bool node: the input is a Go pointer of the destination's pointer type
 	PreferDeep         bool    // below the root mostly containers: deep nestings instead of bushy ones
 	NoMsgOpts          bool    // never the Message option (every issue then reaches the execution's formatter)
 	PZogTag            float64 // per field: zog tag
@@ -63,7 +64,7 @@ func DefaultCfg(mode string) GenCfg {
 	return GenCfg{
 		MaxDepth: 3, MaxFields: 4, MaxElems: 4, MaxTests: 3, Mode: mode,
 		PCatch: 0.15, PDefault: 0.12, PReq: 0.45, PPost: 0.1, PAbsent: 0.12, PJunk: 0.05, PVary: 0.25,
-		PTestSat: 0.8, POpts: 0.12, PZogTag: 0.25, PLong: 0.02, PVia: 0.12, PStructInput: 0.2, PEmbed: 0.15,
+		PTestSat: 0.8, POpts: 0.12, PZogTag: 0.25, PLong: 0.02, PVia: 0.12, PStructInput: 0.2, PEmbed: 0.15, PPtrInput: 0.08,
 		LeafKinds: []string{KString, KString, KInt, KInt, KInt32, KInt64, KFloat32, KFloat64, KBool, KTime},
 	}
 }
@@ -1072,6 +1073,10 @@ func (g *Gen) Render(n *Node, v Val, pos string) (Val, bool) {
 	}
 	switch {
 	case n.Kind == KPtr:
+		if k := n.Elem.Kind; (IsNumber(k) || k == KBool) && !g.Cfg.LogicalKeys && !g.Cfg.NoAltRepr && g.p(g.Cfg.PPtrInput, "ptrin") {
+			// the caller already holds a Go pointer of the destination's pointer type (*int, *bool ...)
+			return Val{T: "ptr", L: []Val{v}}, true
+		}
 		return g.Render(n.Elem, v, pos)
 	case n.Kind == KCustom:
 		return v, true
